@@ -18,7 +18,7 @@ use std::{
 use hcore::out::{Report, cases_from_arg, panic_msg};
 use hx03::{
     ctl,
-    prog::{Env, Outcome, Prog, readable_within},
+    prog::{Env, Outcome, Prog, cq_tail, polladd_armed, readable_within},
     run::run_program,
 };
 use serde_json::{Value, json};
@@ -41,8 +41,18 @@ fn spawn_run(host: String, driver: String, env: Arc<Env>, steer: bool) -> (mpsc:
     (rx, h)
 }
 
+/// The pool threads of a finished run may still be on their way out of their job (the hook that counts them comes
+/// after the wake): wait for them, so that the next run does not mistake them for its own.
+fn quiesce_pool(d0: u64, jobs: usize) {
+    let t0 = Instant::now();
+    while ctl::POOL_DONE.load(Ordering::SeqCst) < d0 + jobs as u64 && t0.elapsed() < Duration::from_secs(3) {
+        std::thread::sleep(Duration::from_micros(200));
+    }
+}
+
 /// The same program under Runtime::block_on, everything fired by a free-running thread.
 fn reference(prog: &Prog, driver: &str) -> Result<Outcome, String> {
+    let d0 = ctl::POOL_DONE.load(Ordering::SeqCst);
     let env = Env::new(prog, Duration::from_millis(20));
     let (rx, h) = spawn_run("block_on".into(), driver.into(), env.clone(), false);
     let e2 = env.clone();
@@ -62,6 +72,7 @@ fn reference(prog: &Prog, driver: &str) -> Result<Outcome, String> {
     });
     let r = rx.recv_timeout(WATCHDOG);
     let _ = firer.join();
+    quiesce_pool(d0, prog.jobs.len());
     match r {
         Ok(r) => {
             let _ = h.join();
@@ -71,20 +82,60 @@ fn reference(prog: &Prog, driver: &str) -> Result<Outcome, String> {
     }
 }
 
+fn trace() -> bool {
+    std::env::var("VERIF_X03_TRACE").is_ok()
+}
+
 struct CaseResult {
     diverged: Option<String>,
     timing: bool,
     executed: usize,
 }
 
-fn wait_effect(env: &Env, ms: i32) {
-    if let Some(fd) = *env.watch_fd.lock().unwrap() {
-        let _ = readable_within(fd, ms);
+/// What the controller can see of the kernel side before an outside event.
+struct Before {
+    tail: Option<u64>,
+    armed: bool,
+    writes: u64,
+}
+
+fn before(env: &Env) -> Before {
+    let ring = *env.ring_fd.lock().unwrap();
+    Before {
+        tail: ring.and_then(cq_tail),
+        armed: ring.map(polladd_armed).unwrap_or(true),
+        writes: ctl::NOTIFY_WRITES.load(Ordering::SeqCst),
+    }
+}
+
+/// Wait until the event has reached the runtime's side of the kernel: io_uring: the completion queue tail has
+/// moved (read from the ring's fdinfo); polling driver: the poller's descriptor is readable.
+fn wait_effect(env: &Env, b: &Before, ms: u64) -> bool {
+    let t0 = Instant::now();
+    let ring = *env.ring_fd.lock().unwrap();
+    loop {
+        match (ring, b.tail) {
+            (Some(fd), Some(t)) => {
+                if cq_tail(fd).map(|n| n != t).unwrap_or(true) {
+                    return true;
+                }
+            }
+            _ => {
+                let Some(fd) = *env.watch_fd.lock().unwrap() else { return true };
+                if readable_within(fd, 20) {
+                    return true;
+                }
+            }
+        }
+        if t0.elapsed() > Duration::from_millis(ms) {
+            return false;
+        }
+        std::thread::sleep(Duration::from_micros(100));
     }
 }
 
 fn env_step(env: &Arc<Env>, ev: &str, id: &str) -> Result<(), String> {
-    let nw0 = ctl::NOTIFY_WRITES.load(Ordering::SeqCst);
+    let b = before(env);
     match ev {
         "wake" => {
             let e2 = env.clone();
@@ -96,7 +147,9 @@ fn env_step(env: &Arc<Env>, ev: &str, id: &str) -> Result<(), String> {
         }
         "op" => {
             env.fire_op(id);
-            wait_effect(env, 2000);
+            if !wait_effect(env, &b, 3000) {
+                return Err(format!("the completion of {id} did not show up in the kernel within 3 s"));
+            }
             return Ok(());
         }
         "job" => {
@@ -121,9 +174,11 @@ fn env_step(env: &Arc<Env>, ev: &str, id: &str) -> Result<(), String> {
         }
         other => return Err(format!("unknown event {other}")),
     }
-    if ctl::NOTIFY_WRITES.load(Ordering::SeqCst) != nw0 {
-        // the wake wrote the notifier: its completion entry signals the descriptor the host waits for
-        wait_effect(env, 2000);
+    if ctl::NOTIFY_WRITES.load(Ordering::SeqCst) != b.writes && b.armed {
+        // the wake wrote the notifier, whose armed poll posts a completion entry
+        if !wait_effect(env, &b, 3000) {
+            return Err(format!("the notifier completion of {ev} {id} did not show up in the kernel within 3 s"));
+        }
     }
     Ok(())
 }
@@ -151,7 +206,20 @@ fn steer(case: &Value, env: &Arc<Env>, rep: &mut Report) -> CaseResult {
         let site = st["site"].as_str().unwrap();
         let arg = st["arg"].as_str().unwrap_or("");
         if st["r"] == "E" {
-            if let Err(e) = env_step(env, site, arg) {
+            if asleep && st["at"].as_str().unwrap_or("parked") != "parked" {
+                // the model has R back at a site when this happens: the previous event (or the host's timer) ended
+                // its sleep; wait for it, or this event could still reach the sleeping loop
+                if ctl::wait_parked(8_000).is_none() && res.diverged.is_none() {
+                    res.diverged = Some(format!("step {i}: R did not come back from the host's wait (the model has it at {})", st["at"]));
+                }
+                asleep = false;
+            }
+            let t0 = Instant::now();
+            let er = env_step(env, site, arg);
+            if trace() {
+                eprintln!("  E {site}({arg}) took {:?} watch_fd={:?}", t0.elapsed(), env.watch_fd.lock().unwrap());
+            }
+            if let Err(e) = er {
                 res.diverged = Some(format!("step {i}: {e}"));
                 break;
             }
@@ -219,6 +287,9 @@ fn steer(case: &Value, env: &Arc<Env>, rep: &mut Report) -> CaseResult {
             want.sort();
             prev_poll = Some((arg.to_string(), want));
         }
+        if trace() {
+            eprintln!("  R {site}({arg}) arrived {:?}", arrived);
+        }
         ctl::grant();
         res.executed += 1;
         asleep = st["blocks"].as_bool().unwrap_or(false);
@@ -251,9 +322,14 @@ fn run_case(case: &Value, refs: &mut BTreeMap<String, Result<Outcome, String>>, 
     loop {
         attempt += 1;
         let env = Env::new(&prog, Duration::from_millis(tl));
+        let pool0 = ctl::POOL_DONE.load(Ordering::SeqCst);
         ctl::reset(SITES);
         let (rx, handle) = spawn_run(host.clone(), driver.clone(), env.clone(), true);
+        let ts = Instant::now();
         let r = steer(case, &env, rep);
+        if trace() {
+            eprintln!("case steered in {:?} ({} steps)", ts.elapsed(), r.executed);
+        }
         if r.timing && attempt < 3 {
             // a deadline passed while the schedule was being steered (loaded machine): not a verdict, run the case
             // again with longer timers.  The run is released and torn down first.
@@ -274,6 +350,7 @@ fn run_case(case: &Value, refs: &mut BTreeMap<String, Result<Outcome, String>>, 
             if got.is_some() {
                 let _ = handle.join();
             }
+            quiesce_pool(pool0, prog.jobs.len());
             tl *= 4;
             continue;
         }
@@ -383,6 +460,11 @@ fn run_case(case: &Value, refs: &mut BTreeMap<String, Result<Outcome, String>>, 
             rep.problem("contract", sig_base("timer-early"), "a sleep completed before its duration had elapsed".into(), case, r.executed);
         }
         let _ = ctl::take_log();
+        env.fire_all();
+        quiesce_pool(pool0, prog.jobs.len());
+        if trace() {
+            eprintln!("case done after {:?}", ts.elapsed());
+        }
         return;
     }
 }
